@@ -29,7 +29,7 @@ ASSUMPTIONS = [
     "step budgets: 2*10^4 Python function entries for load/save (observed maximum ~200), 2*10^6 for validation "
     "(pure-Python curve arithmetic); a shard stops at its first non-termination witness",
 ]
-FLOORS = {"quick": {"evaluations": 12000, "loaded": 1500, "load_errors": 5000,
+FLOORS = {"quick": {"evaluations": 9000, "loaded": 1500, "load_errors": 5000,
                     "validations": 1500, "roundtrips": 1200, "valid_targets_seen": 300},
           "thorough": {"evaluations": 600000, "loaded": 60000, "load_errors": 200000,
                        "validations": 60000, "roundtrips": 50000, "valid_targets_seen": 10000}}
@@ -138,7 +138,7 @@ def mutate(rng, doc, version):
             labels.append("grow")
         elif k == "elements-kind":
             d["elements"] = rng.choice([{}, {"name": "ui"}, "elements", [["ui"]], [5], [None],
-                                        {e.get("name", "x"): e for e in els} if ok_els else 7])
+                                        {str(e.get("name", "x")): e for e in els} if ok_els else 7])
             labels.append("elements-kind")
     return d, labels
 
